@@ -60,6 +60,14 @@ func notGenerator(p *driver.Plan) bool { st, _ := baseStage(p.Stage); return !is
 func withTwin(sc *driver.Scenario, clause string, ok func(*driver.Plan) bool, tweak func(r *driver.Rand, a, b *driver.Plan)) {
 	gen, build, final := sc.Gen, sc.Build, sc.Final
 	sc.GenIso = isoGen(gen, ok, tweak)
+	sc.Gen = func(r *driver.Rand, thorough bool) *driver.Plan {
+		// now and then also in the bulk phase (package-level variables of the
+		// instrumented library are per run, so nothing leaks between runs)
+		if r.Chance(1, 30) {
+			return sc.GenIso(r, thorough)
+		}
+		return gen(r, thorough)
+	}
 	sc.Build = func(e *driver.Env) {
 		if e.Plan.Twin != nil {
 			e.Data = BuildTwin(e, clause)
@@ -105,6 +113,12 @@ func initTwins() {
 	c10.GenIso = isoGen(gen, func(p *driver.Plan) bool { return true }, func(r *driver.Rand, a, b *driver.Plan) {
 		a.FnStallMs, b.FnStallMs = nil, nil
 	})
+	c10.Gen = func(r *driver.Rand, thorough bool) *driver.Plan {
+		if r.Chance(1, 30) {
+			return c10.GenIso(r, thorough)
+		}
+		return gen(r, thorough)
+	}
 	c10.Build = func(e *driver.Env) {
 		if e.Plan.Twin != nil {
 			e.Data = BuildTwin(e, "C10.a")
